@@ -35,10 +35,7 @@ static Case gen_C09(const GenCtx &ctx) {
   // The *_russian building blocks are only ever reached through wrappers that hand them operands on an even
   // word offset (_mzd_ple copies into an aligned matrix, mzd_trtri_upper keeps its windows on even words); an odd
   // word offset is outside their domain, so it is not generated for them.
-  if (c.s("op").find("russian") != std::string::npos)
-    for (auto &kv : c.kv)
-      if (kv.first.size() > 3 && kv.first.compare(kv.first.size() - 3, 3, ".lw") == 0)
-        kv.second = std::to_string(atoi(kv.second.c_str()) & ~1);
+  even_offsets_for_building_blocks(c);
   return c;
 }
 
